@@ -210,3 +210,50 @@ Theorem C01_btor2_answer_insensitive : forall (fuel : nat) (lr : lrs),
   CoreDet fuel (parse_btor2 fuel lr).
 Proof. intros fuel lr. exact (PDet_parse_btor2 fuel lr). Qed.
 Print Assumptions C01_btor2_answer_insensitive.
+
+(* ------------------------------------------------------------------ *)
+(* AIGER (ascii, binary) and BTOR2, end to end (AigerSafe.v, Btor2Safe.v): every admissible run finishes normally
+   and all agree (PDet), so every concrete run — any honest source, schedule, chunk size, leftovers — returns the value
+   of the simple run on the delivered stream.  With C01_dimacs_any_chunking / C01_log_any_chunking this covers all seven
+   parsers. *)
+From Flussab Require Import AigerSafe Btor2Safe.
+
+Theorem C01_aag_any_chunking : forall fuel maxc (sr : source) (c : N),
+  NoLie (events sr) -> 1 <= c ->
+  Forall (fun b => b < 256) (fst (stream_of sr)) -> nlen (fst (stream_of sr)) < 2 ^ 62 ->
+  (length (fst (stream_of sr)) < fuel)%nat ->
+  let p := parse_aag fuel maxc lrs_init in
+  exists a v' s', srun p (view_init (fst (stream_of sr)) (snd (stream_of sr))) = ADone a v' /\
+                  crun p (set_chunk (reader_init sr) c) = CDone a s'.
+Proof. exact parse_aag_any_chunking. Qed.
+Print Assumptions C01_aag_any_chunking.
+
+Theorem C01_aig_any_chunking : forall fuel maxc (sr : source) (c : N),
+  NoLie (events sr) -> 1 <= c ->
+  Forall (fun b => b < 256) (fst (stream_of sr)) -> nlen (fst (stream_of sr)) < 2 ^ 62 ->
+  (length (fst (stream_of sr)) < fuel)%nat ->
+  let p := parse_aig fuel maxc lrs_init in
+  exists a v' s', srun p (view_init (fst (stream_of sr)) (snd (stream_of sr))) = ADone a v' /\
+                  crun p (set_chunk (reader_init sr) c) = CDone a s'.
+Proof. exact parse_aig_any_chunking. Qed.
+Print Assumptions C01_aig_any_chunking.
+
+Theorem C01_btor2_any_chunking : forall fuel (sr : source) (c : N),
+  NoLie (events sr) -> 1 <= c ->
+  Forall (fun b => b < 256) (fst (stream_of sr)) -> nlen (fst (stream_of sr)) < 2 ^ 62 ->
+  (length (fst (stream_of sr)) < fuel)%nat ->
+  let p := parse_btor2 fuel lrs_init in
+  exists a v' s', srun p (view_init (fst (stream_of sr)) (snd (stream_of sr))) = ADone a v' /\
+                  crun p (set_chunk (reader_init sr) c) = CDone a s'.
+Proof. exact parse_btor2_any_chunking. Qed.
+Print Assumptions C01_btor2_any_chunking.
+
+Theorem C01_btor2_two_sources : forall fuel (sr1 sr2 : source) (c1 c2 : N),
+  NoLie (events sr1) -> NoLie (events sr2) -> 1 <= c1 -> 1 <= c2 -> stream_of sr1 = stream_of sr2 ->
+  Forall (fun b => b < 256) (fst (stream_of sr1)) -> nlen (fst (stream_of sr1)) < 2 ^ 62 ->
+  (length (fst (stream_of sr1)) < fuel)%nat ->
+  let p := parse_btor2 fuel lrs_init in
+  exists a s1 s2, crun p (set_chunk (reader_init sr1) c1) = CDone a s1 /\ crun p (set_chunk (reader_init sr2) c2) = CDone a s2.
+Proof. exact parse_btor2_two_sources. Qed.
+Print Assumptions C01_btor2_two_sources.
+
